@@ -97,6 +97,7 @@ void Simulate1802::reset()
   FLAG_CIE = 1;
   FLAG_XIE = 1;
   FLAG_CIL = 0;
+  FLAG_ETQ = 0;
   FLAG_Q = 0;
   break_point = -1;
 }
